@@ -543,17 +543,18 @@ def main():
     # watchdog (still scaled by the load) and a 60 s budget, up to 3 times.  A dead-lock introduced by a change
     # reproduces every time.  (At most 6 jobs are repeated: more broken jobs than that is not starvation.)
     retries = 0
+    confirmed = False
     first_reports = []
     nbroken = sum(1 for r in results if r is not None and r["broken"])
     for i in range(len(jobs)):
         if results[i] is not None and results[i]["broken"]:
             first = results[i]["broken"]
             first_reports.append(str(first)[:300])
-            if nbroken > 6:
+            if nbroken > 6 or confirmed:
                 continue
             for attempt in range(3):
                 retries += 1
-                r = work(tuple(jobs[i][:4]), watchdog_s=60, deadline=time.time() + 60)
+                r = work(tuple(jobs[i][:4]), watchdog_s=30, deadline=time.time() + 60)
                 if not r["broken"]:
                     r["hist"]["job repeated alone after a watchdog / time-out report (starved, not dead-locked)"] += 1
                     results[i] = r
@@ -561,6 +562,8 @@ def main():
                 results[i] = r
                 results[i]["broken"]["first_report"] = first
                 results[i]["broken"]["attempts_alone"] = attempt + 1
+            if results[i]["broken"]:
+                confirmed = True   # reproduces every time: a real dead-lock / crash; no need to repeat the other reports
     if first_reports:
         chk.cov["watchdog_first_reports"] = first_reports[:5]
     chk.cov["watchdog_retries"] = retries
